@@ -3053,6 +3053,12 @@ foamTagFormat(Foam foam)
 	}
 	else if (tag < FOAM_INDEX_LIMIT || isNary) {
 		si = isNary ? argc : foamArgv(foam)[0].data;
+		/*
+		 * The format field of a Prog (format of its value list) is
+		 * written in the node's format as well: it has to fit.
+		 */
+		if (tag == FOAM_Prog && foamArgv(foam)[3].data > si)
+			si = foamArgv(foam)[3].data;
 
 		/*
 		 * !! HACK. The first test is here due to a bug discovered
